@@ -14,9 +14,10 @@ VARIABLES l,        \* position in the trace
           hasSnap, isSet,
           peak, cap0,
           stale,    \* T is older than the previous event (that event shipped no snapshot)
-          gaps      \* some event since reset shipped no snapshot: the peak population is unknown
+          gaps,     \* some event since reset shipped no snapshot: the peak population is unknown
+          every     \* the instance ships its snapshot with every n-th call (1 = always)
 
-vars == <<l, m, des, aged, T, hasSnap, isSet, peak, cap0, stale, gaps>>
+vars == <<l, m, des, aged, T, hasSnap, isSet, peak, cap0, stale, gaps, every>>
 
 R == INSTANCE OrdRef
 
@@ -192,22 +193,25 @@ StepOp ==
   /\ hasSnap' = hasSnap /\ isSet' = isSet /\ cap0' = cap0
   /\ stale' = (hasSnap /\ ~Has("snap"))
   /\ gaps' = (gaps \/ (hasSnap /\ ~Has("snap")))
-  /\ peak' = NewPeak
+  /\ peak' = NewPeak /\ every' = every
   /\ DriftCheck
+  \* binding: an instance that ships every snapshot must ship it with every call that returned
+  /\ (hasSnap /\ every = 1 /\ ~Has("snap") /\ Ev.op \notin {"export", "exportn"} /\ Ev.out \in {"ok", "unwound"}
+        => Breach(<<"snapshot missing: the structural predicates are unbound", Ev.op>>))
   /\ CASE Ev.out = "ok" -> OpOk
        [] Ev.out = "unwound" -> OpUnwound
        [] OTHER -> /\ Same
                    /\ V("OUTCOME", FALSE, <<Ev.op, "ended with", Ev.out, IF Has("msg") THEN Ev.msg ELSE "">>)
 
 StepReset ==
-  /\ m' = R!Empty /\ des' = R!Empty /\ aged' = {} /\ peak' = 0 /\ cap0' = Ev.cap /\ stale' = FALSE /\ gaps' = FALSE
+  /\ m' = R!Empty /\ des' = R!Empty /\ aged' = {} /\ peak' = 0 /\ cap0' = Ev.cap /\ stale' = FALSE /\ gaps' = FALSE /\ every' = IF Has("se") THEN Ev.se ELSE 1
   /\ hasSnap' = Has("snap") /\ isSet' = (Ev.set = 1)
   /\ T' = IF Has("snap") THEN FromSnap(Ev.snap) ELSE NoTree
   /\ (Has("snap") => Structure(T', 0, Ev.cap) /\ V("CLEARED", RangeOK(T') /\ Contents(T') = {}, "a new tree stores entries"))
 
 StepLoad ==
   /\ T' = FromSnap(Ev.snap)
-  /\ hasSnap' = TRUE /\ isSet' = (Ev.set = 1) /\ cap0' = Ev.cap /\ stale' = FALSE /\ gaps' = FALSE
+  /\ hasSnap' = TRUE /\ isSet' = (Ev.set = 1) /\ cap0' = Ev.cap /\ stale' = FALSE /\ gaps' = FALSE /\ every' = IF Has("se") THEN Ev.se ELSE 1
   /\ m' = IF RangeOK(T') THEN FromGraph(Contents(T')) ELSE R!Empty
   /\ des' = R!Empty /\ aged' = {}
   /\ peak' = IF RangeOK(T') THEN Max(Count(T'), (Len(T'.nd) - Max(Ev.cap, 8)) \div 4) ELSE 0
@@ -219,10 +223,10 @@ Step ==
   /\ CASE Ev.ev = "reset" -> StepReset
        [] Ev.ev = "load"  -> StepLoad
        [] Ev.ev = "op"    -> StepOp
-       [] OTHER -> UNCHANGED <<m, des, aged, T, hasSnap, isSet, peak, cap0, stale, gaps>> /\ Breach(<<"unknown event", Ev.ev>>)
+       [] OTHER -> UNCHANGED <<m, des, aged, T, hasSnap, isSet, peak, cap0, stale, gaps, every>> /\ Breach(<<"unknown event", Ev.ev>>)
 
 Init == /\ l = 1 /\ m = R!Empty /\ des = R!Empty /\ aged = {} /\ T = NoTree
-        /\ hasSnap = FALSE /\ isSet = FALSE /\ peak = 0 /\ cap0 = 0 /\ stale = FALSE /\ gaps = FALSE
+        /\ hasSnap = FALSE /\ isSet = FALSE /\ peak = 0 /\ cap0 = 0 /\ stale = FALSE /\ gaps = FALSE /\ every = 1
 
 Spec == Init /\ [][Step]_vars
 
